@@ -81,11 +81,14 @@ def check_timing(recs, sends, cancels):
         if n and deliv[ev][0] < due - G_EARLY_US:
             bad.append(('delivered-early', {'event': ev, 'send': s, 'send_us': t0, 'delivered_us': deliv[ev][0], 'early_by_us': due - deliv[ev][0]}))
     # due order with margin
-    order = sorted(((deliv[s['ev']][0], s) for s in sends if s['id'] not in cancels and deliv.get(s['ev'])), key=lambda x: x[0])
-    for (ta, a), (tb, b) in zip(order, order[1:]):
-        da = cb[a['ev']] + a['delay_ms'] * 1000; db = cb[b['ev']] + b['delay_ms'] * 1000
-        if da - db > G_ORDER_US:
-            bad.append(('delivered-out-of-due-order', {'first': a, 'second': b, 'due_difference_us': da - db})); break
+    # (per queue: what is observed is when an event is *processed*; events for the internal queue overtake external ones that are waiting
+    #  whenever the stepping thread was held up for a while - that is the SCXML queue discipline, not an order of delivery)
+    for q in ('#_internal', None):
+        order = sorted(((deliv[s['ev']][0], s) for s in sends if s['id'] not in cancels and deliv.get(s['ev']) and s['target'] == q), key=lambda x: x[0])
+        for (ta, a), (tb, b) in zip(order, order[1:]):
+            da = cb[a['ev']] + a['delay_ms'] * 1000; db = cb[b['ev']] + b['delay_ms'] * 1000
+            if da - db > G_ORDER_US:
+                bad.append(('delivered-out-of-due-order', {'first': a, 'second': b, 'due_difference_us': da - db})); break
     return bad, sum(len(v) for v in deliv.values())
 
 
